@@ -60,6 +60,37 @@ class SourceFile:
             raise Undecided('lost anchor: file %s does not exist' % rel)
         self.src = open(self.path, encoding='utf-8').read()
         self.mask = L.mask(self.src)
+        self.macro = None
+
+    def instantiate_macro(self, name, binds):
+        """R8: keep only the (single) arm body of `macro_rules! name`, with the macro parameters replaced textually
+        (`$t` -> the bound text); everything outside the arm body is blanked so that line numbers stay those of the file."""
+        m = re.search(r'\bmacro_rules!\s*%s\s*\{' % re.escape(name), self.mask)
+        if not m:
+            raise Undecided('lost anchor: macro_rules! %s in %s' % (name, self.rel))
+        ob = self.mask.find('{', m.start())
+        cb = L.match_close(self.mask, ob)
+        arrow = self.mask.find('=>', ob, cb)
+        if arrow < 0 or self.mask.find('=>', arrow + 2, cb) >= 0 and self.mask[arrow + 2:cb].count('=>') and False:
+            raise Undecided('unsupported construct: macro %s has no single arm' % name)
+        bo = self.mask.find('{', arrow)
+        bc = L.match_close(self.mask, bo)
+        # more than one arm?
+        rest = self.mask[bc + 1:cb]
+        if '=>' in rest:
+            raise Undecided('unsupported construct: macro %s has several arms' % name)
+        def blank(t):
+            return ''.join(ch if ch == '\n' else ' ' for ch in t)
+        body = self.src[bo + 1:bc]
+        for a, b in sorted(binds, key=lambda ab: -len(ab[0])):
+            if a not in body:
+                raise Undecided('lost anchor: macro parameter %s not used in %s' % (a, name))
+            body = re.sub(re.escape(a) + r'\b', lambda _m: b, body)
+        if re.search(r'\$[A-Za-z_]', L.mask(body)):
+            raise Undecided('unsupported construct: unbound macro parameter in %s' % name)
+        self.src = blank(self.src[:bo + 1]) + body + blank(self.src[bc:])
+        self.mask = L.mask(self.src)
+        self.macro = (name, binds)
 
     def line_of(self, off):
         return self.src.count('\n', 0, off) + 1
@@ -219,8 +250,14 @@ class Gen:
                 lines[i:i + 1] = open(inc, encoding='utf-8').read().split('\n')
                 continue
             if d.startswith('file '):
-                m = re.match(r'file\s+(\w+)\s*=\s*(\S+)', d)
-                self.files[m.group(1)] = SourceFile(self.repo, m.group(2))
+                head, fopts = _parse_opts(d)
+                m = re.match(r'file\s+(\w+)\s*=\s*(\S+)', head)
+                sf = SourceFile(self.repo, m.group(2))
+                if fopts.get('macro'):
+                    binds = [(a, b) for (a, b, _k) in fopts['_subst']]
+                    sf.instantiate_macro(fopts['macro'], binds)
+                    self.rewrites.append(('R8', 'macro ' + fopts['macro'], 'instantiated at', '; '.join('%s => %s' % ab for ab in binds)))
+                self.files[m.group(1)] = sf
                 i += 1
             elif d.startswith('item '):
                 self.do_item(d[5:], ln[:len(ln) - len(ln.lstrip())])
@@ -346,6 +383,13 @@ class Gen:
         hmask = msk[f['start']:f['hdr_end']]
         # blank comments inside header
         hdr = ''.join(c if (mc != ' ' or c == ' ') else ' ' for c, mc in zip(hdr, L.mask(hdr, keep_strings=True)))
+        if opts.get('async_erase'):
+            hdr2 = re.sub(r'\basync\s+fn\b', 'fn', hdr, count=1)
+            if hdr2 == hdr:
+                raise Undecided('lost anchor: fn %s is not async' % name)
+            # keep offsets: the return-type slice below is relative to f['start']
+            hdr = hdr2.replace('fn', 'fn' + ' ' * (len(hdr) - len(hdr2)), 1)
+            self.rewrites.append(('R4', name, 'async fn', 'fn'))
         retname = opts.get('ret')
         hdr_pieces = None
         if f['ret'] and retname:
@@ -625,6 +669,18 @@ class Gen:
                         break
                     k += 1
                 edits.append((m.start(), k, '', 'CFG'))
+        # R4: async erasure (`| async_erase` on the directive): `.await` is dropped, the header loses `async`.
+        #     Every awaited call becomes a plain call whose contract says what the completed future yields; the function is
+        #     thereby treated as running to completion without interleaving with other tasks (stated as an assumption).
+        if opts.get('async_erase'):
+            for m in re.finditer(r'\s*\.\s*await\b', bmask):
+                edits.append((m.start(), m.end(), '', 'R4'))
+        # R5f (`| fmt_opaque` on the directive): every `format!(..)` expression becomes `vx_fmt_opaque()` - an arbitrary String.
+        #      The arguments are Display/Debug renderings without side effects in the functions this is used for (stated).
+        if opts.get('fmt_opaque'):
+            for m in re.finditer(r'\bformat!\s*\(', bmask):
+                cbp = L.match_close(bmask, bmask.find('(', m.start()))
+                edits.append((m.start(), cbp + 1, 'vx_fmt_opaque()', 'R5'))
         # R1b: `|_|` closure parameters (Verus only accepts variable patterns there) -> `|_unused|`
         for m in re.finditer(r'\|\s*_\s*\|', bmask):
             if not any(e[0] <= m.start() < e[1] for e in edits):
